@@ -18,9 +18,9 @@ Proof.
   intro H. exists att. split; [reflexivity|]. apply failing_nil. exact H.
 Qed.
 
-Lemma run_tr_case_ok kkl pol ik inpol dl expected :
-  run_tr_case kkl pol ik inpol dl expected = [] ->
-  exists dl', decode_leaves dl = Some dl' /\ validate_tr (kk_of_list kkl) pol ik inpol dl' expected = true.
+Lemma run_tr_case_ok kkl pol ik inpol dl expected native :
+  run_tr_case kkl pol ik inpol dl expected native = [] ->
+  exists dl', decode_leaves dl = Some dl' /\ validate_tr (kk_of_list kkl) pol ik inpol dl' expected native = true.
 Proof.
   unfold run_tr_case. destruct (decode_leaves dl) as [dl'|]; [|discriminate].
   intro H. exists dl'. split; [reflexivity|]. apply failing_nil. exact H.
